@@ -53,9 +53,63 @@ Definition clause_head (v : val) : str :=
 Definition truthy (v : val) : bool :=
   match v with VNil | VBool false => false | _ => true end.
 
+(** do()'s first statement: `if outing1 { defer func() { skip = true; outing1 = false; outing2 = true }() }`
+    — only with a Stepper installed and after an Out command *)
+Definition outing_hook (m : M val) : M val :=
+  fun st =>
+    match dbg st with
+    | Some g =>
+        if douting1 g then
+          let '(r, st') := m st in
+          (r, set_dbg st' (match dbg st' with
+                           | Some g' => Some (mkDbg true false true (dcmds g') (dlog g'))
+                           | None => None
+                           end))
+        else m st
+    | None => m st
+    end.
+
+(** `if !skip { cmd := Stepper(ast, env); switch cmd {...} }`: the new flags, whether the Next
+    command registered its deferred reset, whether the command was outside the four *)
+Definition dbg_decide (g : dbgst) (ast : val) (env : positive) : dbgst * bool * bool :=
+  if dskip g then (g, false, false)
+  else
+    let c := match dcmds g with c :: _ => c | [] => CNoOp end in
+    let g' := mkDbg (dskip g) (douting1 g) (douting2 g) (tl (dcmds g)) ((ast, env) :: dlog g) in
+    match c with
+    | CNext => (mkDbg true (douting1 g') (douting2 g') (dcmds g') (dlog g'), true, false)
+    | CIn => (mkDbg false false (douting2 g') (dcmds g') (dlog g'), false, false)
+    | COut => (mkDbg true true (douting2 g') (dcmds g') (dlog g'), false, false)
+    | CNoOp => (g', false, false)
+    | CBad => (g', false, true)
+    end.
+
+(** the deferred functions of the debugger section, last registered first *)
+Definition dbg_after (out2 next_defer : bool) (g2 : dbgst) : dbgst :=
+  let g3 := if out2 then mkDbg false (douting1 g2) false (dcmds g2) (dlog g2) else g2 in
+  if next_defer then mkDbg false (douting1 g3) (douting2 g3) (dcmds g3) (dlog g3) else g3.
+
+(** the debugger section at the top of EVAL, around the rest of the invocation [body] *)
+Definition dbg_entry (ast : val) (env : positive) (body : M val) : M val :=
+  fun st =>
+    match dbg st with
+    | None => body st
+    | Some g =>
+        let '(g1, next_defer, bad) := dbg_decide g ast env in
+        if bad then (Panic (s_ "debugger command not handled"), set_dbg st (Some g1))
+        else
+          let out2 := douting2 g1 in          (* `if outing2 { defer ... }` is evaluated at entry *)
+          let '(r, st') := body (set_dbg st (Some g1)) in
+          (r, set_dbg st' (match dbg st' with Some g2 => Some (dbg_after out2 next_defer g2) | None => None end))
+    end.
+
 Section OpenRecursion.
   (** the evaluator one fuel unit below: [ev d ast env] *)
   Variable ev : nat -> val -> positive -> M val.
+
+  (** the `continue` statement inside the try form: the next iteration of the SAME EVAL
+      invocation (no new Go frame, and with a Stepper installed no debugger section) *)
+  Variable ev_cont : nat -> val -> positive -> M val.
 
   (** a registered Go function, called from an EVAL frame at depth [d] *)
   Variable call_builtin : nat -> str -> list val -> M val.
@@ -108,6 +162,7 @@ Section OpenRecursion.
   (** do(ctx, ast, from, to, env) with to ∈ {0, -1}: evaluates lst[from : len+to];
       returns the last evaluated value (to = 0) or the last form unevaluated (to = -1) *)
   Definition do_forms (d : nat) (lst : list val) (from : nat) (keep_last : bool) (env : positive) : M val :=
+    outing_hook (
     if Nat.eqb (length lst) from then ret VNil else
     let upto := if keep_last then Z.of_nat (length lst) - 1 else Z.of_nat (length lst) in
     let+ forms := lift (slice lst (Z.of_nat from) upto) in
@@ -115,7 +170,7 @@ Section OpenRecursion.
     if keep_last then
       match nth_opt lst (length lst - 1) with Some x => ret x | None => lift (Panic (s_ "index out of range")) end
     else
-      match nth_opt vs (length vs - 1) with Some x => ret x | None => lift (Panic (s_ "index out of range")) end.
+      match nth_opt vs (length vs - 1) with Some x => ret x | None => lift (Panic (s_ "index out of range")) end).
 
   (** is_macro_call *)
   Definition macro_of (st : state) (ast : val) (env : positive) : option val :=
@@ -195,7 +250,7 @@ Section OpenRecursion.
       | OutOfFuel => (OutOfFuel, st1)
       | _ =>
           match fin with
-          | None => (r, st1)
+          | None => (r, snd (outing_hook (ret VNil) st1))   (* do(ctx, nil, ...) still runs do's first statement *)
           | Some forms =>
               match do_forms d forms 0 false env st1 with
               | (Panic s, st2) => (Panic s, st2)
@@ -285,7 +340,7 @@ Section OpenRecursion.
                           | Some (cbind, cdo) =>
                               let+ new_env := new_env_binds env (VList [cbind] None) (VList [caught_value e] None) in
                               let+ ast' := do_forms d cdo 0 true new_env in
-                              ev d ast' new_env
+                              ev_cont d ast' new_env
                           end))
               end
             else if str_eqb head (s_ "do") then
